@@ -3,9 +3,10 @@
    Model: Model/Organise.v (segmentation, RowAppendableArray, worker slices, neighbour info, samples),
           Model/ReduceMask.v (decision skeleton of data_reduce._get_valid_index; tied to the code bit for bit by
           the correspondence, its geometric soundness H_red is a HYPOTHESIS below, not proved). *)
-From Coq Require Import Reals ZArith List Bool Lia Arith Permutation.
+From Coq Require Import Reals ZArith List Bool Lia Lra Arith Permutation.
+From Interval Require Import Tactic.
 From PR Require Import Base.ZX Base.ListX Base.Slice Base.Num Base.RNum Model.Partition Model.Organise Model.ReduceMask
-     Proofs.C19_partition Proofs.C19_raa Proofs.C03_org Proofs.C03_pipe Proofs.C03_refuted.
+     Proofs.C19_partition Proofs.C19_raa Proofs.C03_org Proofs.C03_pipe Proofs.C03_refuted Proofs.C03_sphere.
 Import ListNotations.
 Local Close Scope Z_scope.
 Local Open Scope nat_scope.
@@ -114,6 +115,39 @@ Theorem C03_snapshot_reduce_refuted :
         keep RO pymodR (legacy_win RO sin Wt r) s = false).
 Proof. exact snapshot_reduce_refuted. Qed.
 Print Assumptions C03_snapshot_reduce_refuted.
+
+(* The bounds a sound window needs (pure spherical geometry, radians, sphere of radius Re, chord2 = squared chord length):
+   what H_red would follow from for a window buffered by a := 2 asin(r / 2Re) in latitude and by asin(sin a / cos lat) in
+   longitude (no reduction in longitude once a pole is within reach).  They are the bounds used by the repaired reference
+   skeleton ReduceMask.fixed_win; the snapshot uses r/Re and r/(sin(lat) Re) instead (refuted above). *)
+Theorem C03_latitude_bound : forall Re r ls ps lt pt : R, (0 < Re)%R -> (0 <= r <= 2 * Re)%R ->
+  (- (PI / 2) <= ps <= PI / 2)%R -> (- (PI / 2) <= pt <= PI / 2)%R ->
+  (chord2 Re ls ps lt pt < r * r)%R -> (Rabs (ps - pt) < 2 * asin (r / (2 * Re)))%R.
+Proof. exact latitude_bound. Qed.
+Print Assumptions C03_latitude_bound.
+Theorem C03_longitude_bound : forall Re r ls ps lt pt : R, (0 < Re)%R -> (0 <= r <= 2 * Re)%R ->
+  (- (PI / 2) <= ps <= PI / 2)%R -> (- (PI / 2) <= pt <= PI / 2)%R ->
+  let a := (2 * asin (r / (2 * Re)))%R in
+  (Rabs pt + a < PI / 2)%R -> (chord2 Re ls ps lt pt < r * r)%R ->
+  (0 < cos (ls - lt))%R /\ (cos pt * Rabs (sin (ls - lt)) < sin a)%R.
+Proof. exact longitude_bound. Qed.
+Print Assumptions C03_longitude_bound.
+
+(* the hypotheses of both bounds hold for the first witness: (11E, 83.75N) and the pixel (12.5E, 83.75N), 50 km *)
+Example C03_bounds_ex :
+  let Re := 6370997%R in let r := 50000%R in
+  let ls := (11 * PI / 180)%R in let ps := (83.75 * PI / 180)%R in let lt := (12.5 * PI / 180)%R in let pt := (83.75 * PI / 180)%R in
+  (0 < Re /\ 0 <= r <= 2 * Re /\ - (PI / 2) <= ps <= PI / 2 /\ - (PI / 2) <= pt <= PI / 2 /\
+   Rabs pt + 2 * asin (r / (2 * Re)) < PI / 2 /\ chord2 Re ls ps lt pt < r * r)%R.
+Proof.
+  cbv zeta. split; [lra|]. split; [lra|].
+  split; [split; interval with (i_prec 60)|]. split; [split; interval with (i_prec 60)|]. split.
+  - assert (asin (50000 / (2 * 6370997)) < 0.004)%R.
+    { apply asin_lt_of_sin; [split; interval with (i_prec 60)|split; interval with (i_prec 60)|interval with (i_prec 60)]. }
+    assert (Rabs (83.75 * PI / 180) < 1.4618)%R by interval with (i_prec 60).
+    assert (1.5707 < PI / 2)%R by interval with (i_prec 60). lra.
+  - unfold chord2. interval with (i_prec 60).
+Qed.
 
 (* non-vacuity: sources on a line at 0, 10, 20, 35 (35 flagged illegal), targets at 9 and 22, radius 5, a mask that
    drops source 0 (too far from both targets): H_red holds, the mask is not trivial, and the result is not all fill *)
